@@ -194,6 +194,28 @@ class _State:
             if k in self.env and (v is None or isinstance(v, (bool, int, float, str))):
                 self.env[k] = set()
 
+    def _evidently_list(self, e, depth=0) -> bool:
+        """the expression is a list by construction: a display / comprehension, list(...) / sorted(...), or a call of a repository
+        function whose returns are such (directly or through a local that is assigned one)"""
+        if isinstance(e, (ast.List, ast.ListComp)):
+            return True
+        if isinstance(e, ast.Call) and isinstance(e.func, ast.Name) and e.func.id in ("list", "sorted"):
+            return True
+        if isinstance(e, ast.Call) and depth < 2:
+            for callee in self.eff.ctx.callees(self.fi, e):
+                rets = [r for r in walk_no_nested(callee.node) if isinstance(r, ast.Return) and r.value is not None]
+                ok = bool(rets)
+                for r in rets:
+                    v = r.value
+                    if isinstance(v, ast.Name):
+                        defs = [a.value for a in walk_no_nested(callee.node) if isinstance(a, ast.Assign) and any(isinstance(t_, ast.Name) and t_.id == v.id for t_ in a.targets)]
+                        ok = ok and any(isinstance(d, (ast.List, ast.ListComp)) or (isinstance(d, ast.Call) and isinstance(d.func, ast.Name) and d.func.id in ("list", "sorted")) for d in defs)
+                    else:
+                        ok = ok and (isinstance(v, (ast.List, ast.ListComp)) or (isinstance(v, ast.Call) and isinstance(v.func, ast.Name) and v.func.id in ("list", "sorted")))
+                if ok:
+                    return True
+        return False
+
     def _rebound(self, name: str) -> bool:
         """the parameter is assigned somewhere in the function (its literal binding then does not hold everywhere)"""
         for n in ast.walk(self.fi.node):
@@ -353,7 +375,19 @@ class _State:
             if isinstance(t, ast.Name):
                 # x += y on an array / list that aliases an internal object mutates it in place; for numbers it
                 # merely rebinds the name, so this is only reported when the engine is told the values are arrays
-                for r in self.env.get(t.id, ()) if self.eff.arrays else ():
+                inplace = self.eff.arrays
+                if not inplace and isinstance(st.op, (ast.Add, ast.BitOr, ast.BitAnd, ast.Sub)):
+                    # `edges += more` on a LIST (`|=` / `&=` / `-=` on a set) extends the very object the name refers to
+                    try:
+                        from .kinds import Dct as _D, Lst as _L, St as _S, strip_none as _sn
+
+                        kt = _sn(self.eff.ctx.interp.kind_at(self.fi, t))
+                        inplace = (isinstance(kt, _L) and isinstance(st.op, ast.Add)) or (isinstance(kt, (_S, _D)) and not isinstance(st.op, ast.Add))
+                    except Exception:
+                        inplace = False
+                    if not inplace and isinstance(st.op, ast.Add) and self._evidently_list(st.value):
+                        inplace = True  # `x += [..]` / `x += self._bucket(k)`: only a list takes a list on its right
+                for r in self.env.get(t.id, ()) if inplace else ():
                     if r.level == 0:
                         self.mutate(r.root, st, f"in-place `{type(st.op).__name__}=` on `{t.id}`, which refers to state of `{r.root}`")
             else:
